@@ -165,11 +165,13 @@ RULE = ("table: every entry of available_fcts() (name, chain evaluated bit-exact
 LEVEL_TEXT = ("Proved in Lean for all inputs: every entry of the regenerated available_fcts table names an entry whose "
               "real function undoes it on its whole domain (and back); for every target list, every drawn permutation "
               "and every query in the fitted label set the permutation transformer followed by get_fct_inv is the "
-              "identity with NaN and X untouched; TransformedTargetClassifier2 returns original labels, classes_ is the "
+              "identity with NaN and X untouched, with closest=False and with closest=True whatever the nearest-"
+              "neighbour search returns (which then also projects unseen labels on the fitted set when the search "
+              "returns fitted labels); TransformedTargetClassifier2 returns original labels, classes_ is the "
               "sorted label list aligned with the probability columns, and it coincides with the plain classifier for "
               "every equivariant learner. The tie to the code is the regenerated table plus an exact differential run.")
-LEVEL_NOTE = ("models are hand transcriptions validated by exact comparison; floats are reals; scikit-learn estimators "
-              "and numpy's RNG are parameters")
+LEVEL_NOTE = ("models are hand transcriptions validated by exact comparison; floats are reals; scikit-learn estimators, "
+              "the kd-tree search of closest=True and numpy's RNG are parameters")
 TECHNIQUE = ("Lean 4 proof (reflection: decidable syntactic-inverse check on the AST-regenerated table + soundness over "
              "Mathlib reals; induction over association lists / sorted lists for the permutation model) + differential "
              "correspondence through a Lean driver")
